@@ -83,6 +83,11 @@ def replay_run(sampler):
                 if sampler == "hmc":
                     long = f(r["long"])
                     nch, dim = 3, 2
+                    manual = [f(m) for m in r.get("manual", [])]
+                    for k, m in enumerate(manual):  # run(a, b) = positions after transitions b+1 .. b+a made by hand
+                        for ch in range(nch):
+                            if first[(ch * a + k) * dim:(ch * a + k + 1) * dim] != m[ch * dim:(ch + 1) * dim]:
+                                bad.append(prof)
                     for ch in range(nch):
                         row_last = first[(ch * a + a - 1) * dim:(ch * a + a) * dim]
                         if row_last != pos[ch * dim:(ch + 1) * dim]:
@@ -104,6 +109,18 @@ def replay_run(sampler):
                 return True, {"case": case, "native": nat, "reproduced_in": sorted(set(bad))}
         return False, {"tried": tried[:1]}
     return replay
+
+
+def replay_runner(model=None):
+    tried = []
+    for (nc, ncol, ndis) in ((3, 2, 1), (2, 3, 0), (1, 1, 2), (4, 2, 2)):
+        case = {"case": "runner_layout", "chains": nc, "n_collect": ncol, "n_discard": ndis}
+        nat = native(case)
+        bad = [prof for prof, r in nat.items() if isinstance(r, dict) and (r.get("panic") or r.get("ok") is False)]
+        tried.append({"case": case, "native": nat})
+        if bad:
+            return True, {"case": case, "native": nat, "reproduced_in": bad}
+    return False, {"tried": tried[:1]}
 
 
 def c09_runner(out, tier, seed):
@@ -132,12 +149,12 @@ def c09_runner(out, tier, seed):
                 continue
             chains, r1, k1, r2 = res
             inst = "chains=%d n_collect=%d n_discard=%d dim=%d" % (nc, ncol, ndis, dim)
-            u.holds(ctx, "run returns Ok", r1.variant == "Ok" and r2.variant == "Ok", None, inst)
+            u.holds(ctx, "run returns Ok", r1.variant == "Ok" and r2.variant == "Ok", replay_runner, inst)
             if r1.variant != "Ok" or r2.variant != "Ok":
                 continue
             a1, a2 = r1.fields[0].a, r2.fields[0].a
-            u.holds(ctx, "result has shape [n_chains, n_collect, dim]", tuple(a1.shape) == (nc, ncol, dim), None, inst)
-            u.holds(ctx, "every chain performs exactly n_collect + n_discard transitions", all(k == ncol + ndis for k in k1), None, inst)
+            u.holds(ctx, "result has shape [n_chains, n_collect, dim]", tuple(a1.shape) == (nc, ncol, dim), replay_runner, inst)
+            u.holds(ctx, "every chain performs exactly n_collect + n_discard transitions", all(k == ncol + ndis for k in k1), replay_runner, inst)
             if tuple(a1.shape) != (nc, ncol, dim):
                 continue
             conj = []
@@ -146,16 +163,16 @@ def c09_runner(out, tier, seed):
                     for i in range(dim):
                         conj.append(same(a1[c, k, i], chains[c].hist[ndis + k + 1][i]))
             u.holds(ctx, "row c belongs to the c-th chain and entry k is its state after exactly n_discard + k + 1 transitions",
-                    z3.And(conj) if conj else True, None, inst)
+                    z3.And(conj) if conj else True, replay_runner, inst)
             conj = []
             for c in range(nc):
                 for k in range(ncol):
                     for i in range(dim):
                         conj.append(same(a2[c, k, i], chains[c].hist[ndis + ncol + k + 1][i]))
             u.holds(ctx, "a following run continues from the last returned state (two runs = one longer run)",
-                    z3.And(conj) if conj else True, None, inst)
+                    z3.And(conj) if conj else True, replay_runner, inst)
             u.holds(ctx, "the second run performs exactly n_collect more transitions",
-                    all(c.k == 2 * ncol + ndis for c in chains), None, inst)
+                    all(c.k == 2 * ncol + ndis for c in chains), replay_runner, inst)
     u.done()
 
 
@@ -319,6 +336,49 @@ def replay_rcp(model=None):
     return False, {"tried": tried}
 
 
+def stats_recorder(eng, store, pat=r"^<RunStats as From<.*>>::from$|^RunStats::from_f32_view$"):
+    """RunStats::from is summarised; what it is computed from is recorded so that 'diagnostics equal to those computed from the
+    returned draws' can be demanded"""
+    def summary(e, callee, args):
+        v = args[0]
+        while isinstance(v, Ref):
+            v = v.get()
+        store.setdefault("stats_args", []).append(v)
+        token = "summary#%d" % len(store["stats_args"])
+        store["stats_obj"] = token
+        return Struct("RunStats", ["ess", "rhat"], [Opaque("ess of " + token), Opaque("rhat of " + token)])
+    eng.override(pat, summary)
+
+
+def stats_obligation(u, ctx, store, sample_arr, stats_val, replay, inst):
+    args = store.get("stats_args", [])
+    tok = store.get("stats_obj")
+    ok = (len(args) == 1 and isinstance(stats_val, Struct) and len(stats_val.fields) == 2
+          and getattr(stats_val.fields[0], "what", None) == "ess of %s" % tok
+          and getattr(stats_val.fields[1], "what", None) == "rhat of %s" % tok)
+    if ok:
+        a = getattr(args[0], "a", None)
+        ok = a is not None and tuple(a.shape) == tuple(sample_arr.shape)
+        if ok and a.size:
+            ok = z3.And([same(x, y) for x, y in zip(a.reshape(-1), sample_arr.reshape(-1))])
+    u.holds(ctx, "the returned diagnostics are the summary computed from exactly the returned draws", ok, replay, inst)
+
+
+def replay_progress_stats(sampler):
+    def replay(model=None):
+        tried = []
+        for (k, a, b) in ((3, 8, 2), (2, 5, 0), (6, 4, 1)):
+            case = {"case": "progress_stats", "sampler": sampler, "chains": k, "n_collect": a, "n_discard": b}
+            nat = native(case)
+            bad = [prof for prof, r in nat.items() if isinstance(r, dict) and (
+                r.get("panic") or r.get("same_draws_as_run") is False or r.get("stats_from_returned_draws") is False)]
+            tried.append({"case": case, "native": nat})
+            if bad:
+                return True, {"case": case, "native": nat, "reproduced_in": bad}
+        return False, {"tried": tried[:1]}
+    return replay
+
+
 def c10_run_chain_progress(out, tier, seed):
     eng = mir_load.load_engine()
     install_chain_overrides(eng)
@@ -466,9 +526,8 @@ def c10_reporter(out, tier, seed):
                                     "RunStats::from summarised"],
               out_of_scope=["wall-clock time, real scheduling, terminal output", "intermediate (non-final) reports"])
 
-    def summary(e, callee, args):
-        return Struct("RunStats", ["ess", "rhat"], [Opaque("BasicStats"), Opaque("BasicStats")])
-    eng.override(r"^<RunStats as From<.*>>::from$", summary)
+    state = {}
+    stats_recorder(eng, state)
     # clock: constant (no periodic report), sends succeed and enqueue for the reporter
     eng.override(r"^Instant::now$", lambda e, c, a: Num(0))
 
@@ -481,8 +540,6 @@ def c10_reporter(out, tier, seed):
         ch.results.append(True)
         return Ok(Tuple([]))
     eng.override(r"^std::sync::mpsc::Sender::<.*>::send$", send)
-    state = {}
-
     def spawn(e, callee, args):
         state["reporter"] = args[0]
         return Struct("JoinHandle", ["closure"], [args[0]])
@@ -538,10 +595,11 @@ def c10_reporter(out, tier, seed):
             if r.variant == "Ok":
                 a = r.fields[0].fields[0].a
                 ok = tuple(a.shape) == (nc, 4, 1)
-                u.holds(ctx, "run_progress returns shape [n_chains, n_collect, dim]", ok, None, inst)
+                u.holds(ctx, "run_progress returns shape [n_chains, n_collect, dim]", ok, replay_reporter, inst)
                 if ok:
                     conj = [same(a[c, k, 0], chains[c].hist[1 + k + 1][0]) for c in range(nc) for k in range(4)]
                     u.holds(ctx, "run_progress returns exactly the draws run would return, in chain order", z3.And(conj), replay_reporter, inst)
+                    stats_obligation(u, ctx, st, a, r.fields[0].fields[1], replay_progress_stats("mh"), inst)
         u.reached("reporter runs to completion with %d chains" % nc, n_ok)
     u.done()
 
@@ -561,9 +619,8 @@ def c10_reporter_nuts(out, tier, seed):
     eng.typemap["T"] = "f32"
     eng.typemap["FloatElem"] = "f32"
 
-    def summary(e, callee, args):
-        return Struct("RunStats", ["ess", "rhat"], [Opaque("BasicStats"), Opaque("BasicStats")])
-    eng.override(r"^<RunStats as From<.*>>::from$", summary)
+    state = {}
+    stats_recorder(eng, state)
     eng.override(r"^Instant::now$", lambda e, c, a: Num(0))
     hist = {}
 
@@ -594,8 +651,6 @@ def c10_reporter_nuts(out, tier, seed):
         ch.results.append(True)
         return Ok(Tuple([]))
     eng.override(r"^std::sync::mpsc::Sender::<.*>::send$", send)
-    state = {}
-
     def spawn(e, callee, args):
         state["reporter"] = args[0]
         return Struct("JoinHandle", ["closure"], [args[0]])
@@ -663,6 +718,7 @@ def c10_reporter_nuts(out, tier, seed):
                             z3.And(conj), replay_reporter_nuts, inst)
                     u.holds(ctx, "every NUTS chain performs exactly n_collect + n_discard transitions in progress mode",
                             all(len(hs[c]) == 5 for c in range(nc)), replay_reporter_nuts, inst)
+                    stats_obligation(u, ctx, st, a, r.fields[0].fields[1], replay_progress_stats("nuts"), inst)
         u.reached("NUTS reporter runs to completion with %d chains" % nc, n_ok)
     u.done()
 
@@ -717,9 +773,9 @@ def c10_hmc_progress(out, tier, seed):
     eng.typemap["T"] = "f32"
     eng.typemap["FloatElem"] = "f32"
 
-    def summary(e, callee, args):
-        return Struct("RunStats", ["ess", "rhat"], [Opaque("BasicStats"), Opaque("BasicStats")])
-    eng.override(r"^<RunStats as From<.*>>::from$|^RunStats::from_f32_view$", summary)
+    store = {}
+    stats_recorder(eng, store)
+    rp = replay_progress_stats("hmc")
     fn = eng.find_fn("HMC::run_progress")
     for (nc, ncol, ndis, dim) in cfgs:
         hist = []
@@ -737,6 +793,7 @@ def c10_hmc_progress(out, tier, seed):
 
         def run(ctx, nc=nc, ncol=ncol, ndis=ndis, dim=dim):
             del hist[:]
+            store.clear()
             p0 = [ctx.fresh_real("p_init") for _ in range(nc * dim)]
             me = hmc_struct(eng, step_size=Num(1), n_leapfrog=1, positions=Ten(obj_array(p0, (nc, dim)), dtype="FloatElem"), rng=Opaque("rng"))
             r = eng.call_fn(fn, [Ref.to(me), ncol, ndis])
@@ -745,18 +802,19 @@ def c10_hmc_progress(out, tier, seed):
             u.paths += 1
             inst = "chains=%d n_collect=%d n_discard=%d dim=%d" % (nc, ncol, ndis, dim)
             if isinstance(res, Exception):
-                u.holds(ctx, "HMC progress mode neither panics nor errs", False, None, inst + ": %r" % (res,))
+                u.holds(ctx, "HMC progress mode neither panics nor errs", False, rp, inst + ": %r" % (res,))
                 continue
             r, hs = res
-            u.holds(ctx, "HMC progress mode neither panics nor errs", r.variant == "Ok", None, inst)
+            u.holds(ctx, "HMC progress mode neither panics nor errs", r.variant == "Ok", rp, inst)
             if r.variant != "Ok":
                 continue
             a = r.fields[0].fields[0].a
             ok = tuple(a.shape) == (nc, ncol, dim) and len(hs) == ncol + ndis
-            u.holds(ctx, "HMC::run_progress returns shape [n_chains, n_collect, dim] after exactly n_collect + n_discard transitions", ok, None, inst)
+            u.holds(ctx, "HMC::run_progress returns shape [n_chains, n_collect, dim] after exactly n_collect + n_discard transitions", ok, rp, inst)
             if ok:
                 conj = [same(a[c, k, i], hs[ndis + k][c * dim + i]) for c in range(nc) for k in range(ncol) for i in range(dim)]
-                u.holds(ctx, "HMC::run_progress returns exactly the draws run would return", z3.And(conj), None, inst)
+                u.holds(ctx, "HMC::run_progress returns exactly the draws run would return", z3.And(conj), rp, inst)
+                stats_obligation(u, ctx, store, a, r.fields[0].fields[1], rp, inst)
     u.done()
 
 
@@ -818,7 +876,7 @@ def c18_init_stream(out, tier, seed):
                 u.paths += 1
                 inst = "%s(n=%d, d=%d)" % (which, n, d)
                 if isinstance(res, Exception):
-                    u.holds(ctx, "the initialiser does not fail", False, None, inst + ": %r" % (res,))
+                    u.holds(ctx, "the initialiser does not fail", False, replay_init, inst + ": %r" % (res,))
                     continue
                 r, sd = res
                 ok = isinstance(r, RVec) and len(r.items) == n and all(isinstance(x, RVec) and len(x.items) == d for x in r.items)
